@@ -433,6 +433,14 @@ def stepCredFilter (j : Json) : String :=
   let kept := CredMore.filterOnDIDMethod Sites.credMoreCfg (jStrs j "methods") creds
   "kept=[" ++ String.intercalate "," (kept.map toString) ++ "]"
 
+/-- jsonld Canonicalize / ReadBytes / AllFieldsDefined around json-gold -/
+def stepJsonld (j : Json) : String :=
+  let pr (k : String) : JsonLd.Proc := match jStr j k with | "ok" => .ok | "panic" => .panic | _ => .err
+  let shw : Res Unit → String := fun r => match r with
+    | .ok _ => "ok" | .err e => "err:" ++ e | .panic s => "panic:" ++ s
+  let c := Sites.jsonldCfg
+  s!"canon={shw (JsonLd.canonicalize c ⟨jBool j "jsonOk", pr "normalize"⟩)} read={shw (JsonLd.readBytes c ⟨jBool j "jsonOk", pr "expand"⟩)} fields={shw (JsonLd.allFieldsDefined c ⟨jBool j "docOk", pr "expandDoc"⟩)}"
+
 def stepJwx (j : Json) : String :=
   let c := Sites.jwxCfg
   let i (verify : String) : Jwx.In :=
@@ -478,6 +486,7 @@ def step (st : Unit) (j : Json) : Unit × List String :=
   | "httpcache.seq" => (st, [stepHttpCache j])
   | "cred.presenter" => (st, [stepCred j])
   | "jwx.parse" => (st, [stepJwx j])
+  | "jsonld.guard" => (st, [stepJsonld j])
   | "cred.dates" => (st, [stepCredDates j])
   | "cred.autocorrect" => (st, [stepCredAuto j])
   | "cred.filter" => (st, [stepCredFilter j])
